@@ -9,6 +9,7 @@
 #include "fft/real-fft.h"
 #include "fft/small-fft.h"
 #include "lru-cache.h"
+#include "verif-hooks.h"
 
 #include <cassert>
 #include <memory>
@@ -43,6 +44,34 @@ std::shared_ptr<BaseFftPlanR> _get_rfft_plan(int n) {
 
 }   // namespace
 
+#ifdef DSPLIB_VERIF
+namespace verif {
+
+namespace {
+thread_local const LRUCache<int, std::shared_ptr<BaseFftPlanC>>* g_ccache = nullptr;
+thread_local const LRUCache<int, std::shared_ptr<BaseFftPlanR>>* g_rcache = nullptr;
+}   // namespace
+
+std::vector<int> fft_cache_keys() {
+    return (g_ccache != nullptr) ? g_ccache->keys() : std::vector<int>{};
+}
+
+std::vector<int> rfft_cache_keys() {
+    return (g_rcache != nullptr) ? g_rcache->keys() : std::vector<int>{};
+}
+
+int fft_cache_capacity() {
+    return FFT_CACHE_SIZE;
+}
+
+std::vector<CacheEvent>& cache_trace() {
+    thread_local std::vector<CacheEvent> trace;
+    return trace;
+}
+
+}   // namespace verif
+#endif
+
 //-------------------------------------------------------------------------------------------------
 std::shared_ptr<BaseFftPlanC> create_fft_plan(int n) {
     //dont cache small fft plans
@@ -52,11 +81,20 @@ std::shared_ptr<BaseFftPlanC> create_fft_plan(int n) {
 
     //TODO: use weak_ptr cache to prevent duplication
     thread_local LRUCache<int, std::shared_ptr<BaseFftPlanC>> cache{FFT_CACHE_SIZE};
+#ifdef DSPLIB_VERIF
+    verif::g_ccache = &cache;
+#endif
     if (!cache.exists(n)) {
         auto plan = _get_fft_plan(n);
         cache.put(n, plan);
+#ifdef DSPLIB_VERIF
+        verif::cache_trace().push_back({0, n, false});
+#endif
         return plan;
     }
+#ifdef DSPLIB_VERIF
+    verif::cache_trace().push_back({0, n, true});
+#endif
     return cache.get(n);
 }
 
@@ -66,11 +104,20 @@ std::shared_ptr<BaseFftPlanR> create_rfft_plan(int n) {
     }
 
     thread_local LRUCache<int, std::shared_ptr<BaseFftPlanR>> cache{FFT_CACHE_SIZE};
+#ifdef DSPLIB_VERIF
+    verif::g_rcache = &cache;
+#endif
     if (!cache.exists(n)) {
         auto plan = _get_rfft_plan(n);
         cache.put(n, plan);
+#ifdef DSPLIB_VERIF
+        verif::cache_trace().push_back({1, n, false});
+#endif
         return plan;
     }
+#ifdef DSPLIB_VERIF
+    verif::cache_trace().push_back({1, n, true});
+#endif
     return cache.get(n);
 }
 
